@@ -152,7 +152,7 @@ func ParseVia(via string) (*Via, error) {
 	result := &Via{}
 
 	for _, param := range strings.Split(via, ",") {
-		viaParam, err := parseViaParam(param)
+		viaParam, err := parseViaParam(strings.TrimSpace(param))
 		if err != nil {
 			return nil, err
 		}
